@@ -27,6 +27,15 @@ def run(repo, rep):
     rule_c(repo, rep)
     rule_d(repo, rep)
     rule_extents(repo, rep, "C02-e")
+    # clauses shared with C08 / C03: the reservations that become the published extents are as large as what is written into them
+    rep.clause("C02-f", "weight double-buffer reservations span all cores of a depth slice (the DMA that fills the buffer writes that much) [rule shared with C08-e]")
+    rep.clause("C02-g", "rolling-buffer reservations are as wide and tall as the producer writes and are recomputed for every cascade proposal [rule shared with C03-e]")
+    from . import c03, c08
+
+    with rep.borrow({"C08-e": "C02-f"}):
+        c08.run(repo, rep)
+    with rep.borrow({"C03-e": "C02-g"}):
+        c03.run(repo, rep)
 
 
 def rule_a(repo, rep):
